@@ -686,7 +686,10 @@ class _Reqs2:
                     n += 1
                     for bb, t in fn.calls():
                         q = strip_generics(t["fn"].get("path", ""))
-                        if not (values.is_transparent(t["fn"].get("path", ""), t["fn"].get("trait"), t["fn"].get("trait_method")) or callee_name(q) in ("clone", "as_ref", "deref", "to_owned")):
+                        # Option / NonZero combinators over the field with std function references only (`self.port.map_or(0, NonZeroU16::get)`)
+                        std_comb = (q.startswith(("core::option::Option::", "core::num::")) and callee_name(q) in ("map_or", "unwrap_or", "unwrap_or_default", "map", "copied", "cloned", "get", "as_deref", "as_ref", "is_some", "is_none")
+                                    and all(c.startswith("fn:core::") or c.startswith("fn:std::") for c in t.get("closures", [])))
+                        if not (std_comb or values.is_transparent(t["fn"].get("path", ""), t["fn"].get("trait"), t["fn"].get("trait_method")) or callee_name(q) in ("clone", "as_ref", "deref", "to_owned")):
                             return False, "%s calls %s" % (p, q)
                     if fn.locals[1]["ty"].startswith("&mut"):
                         return False, "%s takes &mut self" % p
